@@ -62,6 +62,14 @@ Theorem C19_inputs_order_free : forall n1 v1 n2 v2 l name, n1 <> n2 ->
 Proof. exact inputs_commute. Qed.
 Print Assumptions C19_inputs_order_free.
 
+(* the two halves meet: every state a WELL-TYPED call sequence builds has every stack within its maximum -
+   the well-formedness from which C02 and C03 start (sizes can only be set while a stack is still empty,
+   and loading checks the room) *)
+Theorem C19_built_state_within_maxima : forall n cs s, typed n cs = true -> brun (binit n) cs = BOk s ->
+  swf (b_exec s) /\ forall st, In st (b_stacks s) -> swf st.
+Proof. exact typed_built_wf. Qed.
+Print Assumptions C19_built_state_within_maxima.
+
 Example C19_example :
   typed 3 [MaxAll 5; Values 0 [1; 2]%Z; NoProgram; StepLimit 9; Build] = true /\
   typed 3 [MaxAll 5; Values 0 [1; 2]%Z; MaxOf 0 9; NoProgram; StepLimit 9; Build] = false /\
